@@ -119,6 +119,73 @@ Proof. induction n; intros; auto. rewrite alone_S. apply lstep_own; auto. Qed.
 Lemma linit_own : forall t p, own (linit t p).
 Proof. intros t p o [[]|[]]. Qed.
 
+
+(* ---- a pending store (second half of a non-atomic increment) only ever sits at the head of the
+   continuation, and only an OIncr puts it there *)
+Definition nostore (k : list kitem) : Prop := forall m, ~ In (KStore m) k.
+
+Lemma nostore_app_kop : forall body x k, (forall m, x <> KStore m) -> nostore k -> nostore (map KOp body ++ x :: k).
+Proof.
+  intros body x k Hx Hk m Hin. apply in_app_or in Hin. destruct Hin as [Hin|[Hin|Hin]].
+  - apply in_map_iff in Hin. destruct Hin as [? [? ?]]. discriminate.
+  - eapply Hx; eauto.
+  - eapply Hk; eauto.
+Qed.
+
+Lemma nostore_app_kop' : forall body k, nostore k -> nostore (map KOp body ++ k).
+Proof.
+  intros body k Hk m Hin. apply in_app_or in Hin. destruct Hin as [Hin|Hin].
+  - apply in_map_iff in Hin. destruct Hin as [? [? ?]]. discriminate.
+  - eapply Hk; eauto.
+Qed.
+
+Lemma nostore_tail : forall x k, nostore (x :: k) -> nostore k.
+Proof. intros x k H m Hin. apply (H m). right. auto. Qed.
+
+Lemma land_nostore : forall e k d d' k', land e d k = Some (d', k') -> nostore k -> nostore k'.
+Proof.
+  induction k as [|x k IH]; simpl; intros d d' k' H N; try discriminate.
+  pose proof (nostore_tail _ _ N) as Nk.
+  destruct x; simpl in H; try (eapply IH; eauto; fail).
+  destruct (catches cs e).
+  - inversion H; subst. apply nostore_app_kop'; auto.
+  - destruct (d - 1); try discriminate. eapply IH; eauto.
+Qed.
+
+Lemma do_throw_nostore : forall l e k, nostore k -> nostore (code (do_throw c l e k)).
+Proof.
+  intros l e k N. unfold do_throw. destruct (1 <=? depth (exc l)).
+  - destruct (land e (depth (exc l)) k) as [[d' k']|] eqn:E; simpl.
+    + eapply land_nostore; eauto.
+    + intros m [].
+  - simpl. intros m [].
+Qed.
+
+Lemma lstep_code : forall l, done l = false -> fatal l = false -> nostore (tl (code l)) ->
+  nostore (code (lstep c l)) \/ exists m k, code l = KOp (OIncr m) :: k /\ code (lstep c l) = KStore m :: k.
+Proof.
+  intros l Hd Hf W. unfold lstep. rewrite Hd, Hf. simpl.
+  destruct (code l) as [|[o| | |] k]; simpl in W.
+  - left. simpl. intros m [].
+  - destruct o; simpl; auto;
+      try (left; repeat match goal with |- context[match ?x with _ => _ end] => destruct x end; simpl;
+           auto using do_throw_nostore; fail).
+    + left. apply nostore_app_kop; auto. discriminate.
+    + left. apply nostore_app_kop; auto. discriminate.
+    + right. eauto.
+  - left. repeat match goal with |- context[match ?x with _ => _ end] => destruct x end; simpl;
+      auto using do_throw_nostore, nostore_app_kop'.
+  - left. auto.
+  - left. auto.
+Qed.
+
+Lemma lstep_wf : forall l, done l = false -> fatal l = false -> nostore (tl (code l)) -> nostore (tl (code (lstep c l))).
+Proof.
+  intros l Hd Hf W. destruct (lstep_code l Hd Hf W) as [N|[m [k [E1 E2]]]].
+  - destruct (code (lstep c l)); simpl; auto. eapply nostore_tail; eauto.
+  - rewrite E2. simpl. rewrite E1 in W. exact W.
+Qed.
+
 End Local.
 
 (* ------------------------------------------------------------------ shape of a machine step *)
@@ -138,7 +205,7 @@ Inductive pre (t : tid) (g : gstate) (l : lstate) (s : sstate) : gstate -> sstat
     pre t g l s g (set_holding s (m :: holding s))
 | pre_release : forall m, mtx g m = Some t ->
     pre t g l s (set_mtx g m None) (set_holding s (rem_mid m (holding s)))
-| pre_load : forall m k, code l = KOp (OIncr m) :: k ->
+| pre_load : forall m k, code l = KOp (OIncr m) :: k -> nmem m (holding s) = true ->
     pre t g l s g (set_tmp s (cells g m))
 | pre_store : forall m k, code l = KStore m :: k ->
     pre t g l s (set_cell g m (S (tmp s))) s
@@ -157,7 +224,11 @@ Inductive shape (t : tid) (g : gstate) : gstate -> Prop :=
     nth_error (thr g) t = Some (l, s) ->
     aborted g = false -> started s = true -> done l = false -> fatal l = false -> ub s = false ->
     pre t g l s g1 s1 ->
+    (forall m k, code l = KOp (OIncr m) :: k ->      (* an OIncr at the head is executed as the guarded load *)
+       nmem m (holding s) = true /\ g1 = g /\ s1 = set_tmp s (cells g m)) ->
     shape t g (advance c false g1 t l s1).
+
+Ltac nohd := let HH := fresh in intros ? ? HH; discriminate HH.
 
 Lemma gstep_shape : forall t g, shape t g (G t g).
 Proof.
@@ -169,32 +240,35 @@ Proof.
   apply orb_false_elim in Hrun. destruct Hrun as [Hrun Hfa].
   apply orb_false_elim in Hrun. destruct Hrun as [Hst Hdo].
   apply negb_false_iff in Hst.
-  assert (ADV : forall g1 s1, pre t g l s g1 s1 -> shape t g (advance c false g1 t l s1))
+  assert (ADV : forall g1 s1, pre t g l s g1 s1 ->
+            (forall m k, code l = KOp (OIncr m) :: k -> nmem m (holding s) = true /\ g1 = g /\ s1 = set_tmp s (cells g m)) ->
+            shape t g (advance c false g1 t l s1))
     by (intros; eapply sh_adv; eauto).
   assert (UB : shape t g (set_thr g t (l, set_ub s))) by (apply sh_ub; auto).
   destruct (code l) as [|[o| | |] k] eqn:Hc.
-  - apply ADV; constructor.
-  - destruct o; try (apply ADV; constructor; fail).
-    + (* lock *) unfold acquire. destruct (mtx g m) eqn:Hm; simpl; [constructor|]. apply ADV. constructor; auto.
+  - apply ADV; [constructor | nohd].
+  - destruct o; try (apply ADV; [constructor | nohd]; fail).
+    + (* lock *) unfold acquire. destruct (mtx g m) eqn:Hm; simpl; [constructor|]. apply ADV; [constructor; auto | nohd].
     + (* unlock *) unfold release. destruct (mtx g m) as [ow|] eqn:Hm; auto.
-      destruct (ow =? t) eqn:E; auto. apply Nat.eqb_eq in E; subst ow. apply ADV. constructor; auto.
+      destruct (ow =? t) eqn:E; auto. apply Nat.eqb_eq in E; subst ow. apply ADV; [constructor; auto | nohd].
     + (* tryspin *) unfold acquire. destruct (mtx g m) eqn:Hm.
-      * simpl. destruct b eqn:Hb; [|constructor]. apply ADV. eapply pre_busy; eauto.
-      * apply ADV. constructor; auto.
-    + (* with *) unfold acquire. destruct (mtx g m) eqn:Hm; simpl; [constructor|]. apply ADV. constructor; auto.
-    + (* incr *) apply ADV. eapply pre_load; eauto.
+      * simpl. destruct b eqn:Hb; [|constructor]. apply ADV; [eapply pre_busy; eauto | nohd].
+      * apply ADV; [constructor; auto | nohd].
+    + (* with *) unfold acquire. destruct (mtx g m) eqn:Hm; simpl; [constructor|]. apply ADV; [constructor; auto | nohd].
+    + (* incr *) destruct (nmem m (holding s)) eqn:Hh; auto.
+      apply ADV; [eapply pre_load; eauto | intros m' k' HH; inversion HH; subst; auto].
     + (* spawn *) destruct (nth_error (thr g) t0) as [[lu su]|] eqn:Hu; auto.
-      destruct (started su) eqn:Hs; auto. apply ADV. eapply pre_spawn; eauto.
+      destruct (started su) eqn:Hs; auto. apply ADV; [eapply pre_spawn; eauto | nohd].
     + (* join *) destruct (nth_error (thr g) t0) as [[lu su]|] eqn:Hu; auto.
-      destruct (started su) eqn:Hs; simpl; [|apply ADV; constructor].
+      destruct (started su) eqn:Hs; simpl; [|apply ADV; [constructor | nohd]].
       destruct (done lu) eqn:Hd; simpl; [|constructor].
-      destruct (joined su) eqn:Hj; auto. apply ADV. eapply pre_join; eauto.
+      destruct (joined su) eqn:Hj; auto. apply ADV; [eapply pre_join; eauto | nohd].
     + (* peek *) destruct (nth_error (thr g) t0) as [[lu su]|] eqn:Hu; auto.
-      apply ADV. eapply pre_peek; eauto.
-  - apply ADV; constructor.
+      apply ADV; [eapply pre_peek; eauto | nohd].
+  - apply ADV; [constructor | nohd].
   - unfold release. destruct (mtx g m) as [ow|] eqn:Hm; auto.
-    destruct (ow =? t) eqn:E; auto. apply Nat.eqb_eq in E; subst ow. apply ADV. constructor; auto.
-  - apply ADV. eapply pre_store; eauto.
+    destruct (ow =? t) eqn:E; auto. apply Nat.eqb_eq in E; subst ow. apply ADV; [constructor; auto | nohd].
+  - apply ADV; [eapply pre_store; eauto | nohd].
 Qed.
 
 (* ------------------------------------------------------------------ isolation *)
@@ -327,7 +401,7 @@ Qed.
 
 Lemma mx_step : b = false -> forall t g, mx_inv g -> mx_inv (G t g).
 Proof.
-  intros Hb t g I. destruct (gstep_shape t g) as [|l s Ht|l s g1 s1 Ht Hab Hst Hdo Hfa Hub P]; auto.
+  intros Hb t g I. destruct (gstep_shape t g) as [|l s Ht|l s g1 s1 Ht Hab Hst Hdo Hfa Hub P PI]; auto.
   - intros t' l' s' m H Hin. apply set_thr_lookup in H. destruct H as [[-> E]|[Hne H]].
     + inversion E; subst. simpl in Hin. eapply I; eauto.
     + eapply I; eauto.
@@ -376,6 +450,88 @@ Proof.
   pose proof (I _ _ _ _ H1 I1). pose proof (I _ _ _ _ H2 I2). congruence.
 Qed.
 
+(* ------------------------------------------------------------------ guarded counters lose no update *)
+Lemma nmem_in : forall m h, nmem m h = true -> In m h.
+Proof.
+  intros. unfold nmem in H. apply existsb_exists in H. destruct H as [x [Hin E]].
+  apply Nat.eqb_eq in E. subst. auto.
+Qed.
+
+Definition inc_inv (g : gstate) : Prop :=
+  forall t l s, nth_error (thr g) t = Some (l, s) ->
+    nostore (tl (code l)) /\
+    forall m k, code l = KStore m :: k -> In m (holding s) /\ tmp s = cells g m.
+
+(* the other threads' entries of g1 are those of g up to the started/joined flags *)
+Lemma pre_other : forall t g l s g1 s1, pre t g l s g1 s1 ->
+  forall t' l' s', nth_error (thr g1) t' = Some (l', s') ->
+    exists s0, nth_error (thr g) t' = Some (l', s0) /\ holding s' = holding s0 /\ tmp s' = tmp s0.
+Proof.
+  intros t g l s g1 s1 P t' l' s' H.
+  inversion P; subst; simpl in H; try (exists s'; auto; fail);
+    apply nth_error_upd_some in H; destruct H as [[<- E]|[? H]]; try (exists s'; auto; fail);
+    inversion E; subst; exists su; auto.
+Qed.
+
+Lemma pre_cells : forall t g l s g1 s1, pre t g l s g1 s1 ->
+  cells g1 = cells g \/ exists m k, code l = KStore m :: k /\ cells g1 = fupd (cells g) m (S (tmp s)).
+Proof. intros. inversion H; subst; simpl; eauto. Qed.
+
+Lemma inc_step : b = false -> forall t g, mx_inv g -> inc_inv g -> inc_inv (G t g).
+Proof.
+  intros Hb t g MX I. destruct (gstep_shape t g) as [|l s Ht|l s g1 s1 Ht Hab Hst Hdo Hfa Hub P PI]; auto.
+  - intros t' l' s' H. apply set_thr_lookup in H. destruct H as [[-> E]|[Hne H]].
+    + inversion E; subst. simpl. apply (I _ _ _ Ht).
+    + apply (I _ _ _ H).
+  - intros t' l' s' H. apply adv_lookup in H. destruct H as [[-> [-> ->]]|[Hne H]].
+    + (* the stepping thread *)
+      destruct (I _ _ _ Ht) as [W N]. split; [apply lstep_wf; auto|].
+      intros m k Hc. destruct (lstep_code c l Hdo Hfa W) as [NS|[m0 [k0 [E1 E2]]]].
+      * exfalso. rewrite Hc in NS. apply (NS m). left. reflexivity.
+      * rewrite E2 in Hc. inversion Hc; subst m0 k0.
+        destruct (PI _ _ E1) as [Hh [-> ->]]. simpl. split; [apply nmem_in; auto | reflexivity].
+    + (* another thread *)
+      destruct (pre_other _ _ _ _ _ _ P _ _ _ H) as [s0 [H0 [Eh Et]]].
+      destruct (I _ _ _ H0) as [W N]. split; auto.
+      intros m k Hc. destruct (N _ _ Hc) as [Hin Htmp]. rewrite Eh, Et. split; auto.
+      unfold advance; simpl. destruct (pre_cells _ _ _ _ _ _ P) as [->|[m' [k' [Hc' ->]]]]; auto.
+      unfold fupd. destruct (m =? m') eqn:E; auto.
+      apply Nat.eqb_eq in E; subst m'. exfalso.
+      destruct (I _ _ _ Ht) as [_ N']. destruct (N' _ _ Hc') as [Hin' _].
+      pose proof (MX _ _ _ _ Ht Hin'). pose proof (MX _ _ _ _ H0 Hin). congruence.
+Qed.
+
+Lemma inc_init : forall ps, inc_inv (ginit ps).
+Proof.
+  intros ps t l s H. unfold ginit in H; simpl in H. rewrite init_from_nth in H.
+  destruct (nth_error ps t) as [p|]; simpl in H; inversion H; subst. simpl. split.
+  - intros m Hin. destruct p; simpl in Hin; auto. apply in_map_iff in Hin. destruct Hin as [? [? ?]]. discriminate.
+  - intros m k Hc. destruct p; simpl in Hc; discriminate.
+Qed.
+
+Lemma inc_run : b = false -> forall sched g, mx_inv g -> inc_inv g -> mx_inv (R sched g) /\ inc_inv (R sched g).
+Proof.
+  intros Hb. induction sched; simpl; intros; auto. apply IHsched; [apply mx_step | apply inc_step]; auto.
+Qed.
+
+(* For EVERY schedule: a thread about to store the second half of `cell = cell + 1` still holds the mutex
+   and the value it loaded is still the cell's value — nobody wrote in between; the store then adds
+   exactly one to the CURRENT value (no lost update). *)
+Theorem guarded_increment_gen : b = false -> forall ps sched t l s m k,
+  let g := R sched (ginit ps) in
+  nth_error (thr g) t = Some (l, s) -> code l = KStore m :: k ->
+  In m (holding s) /\ tmp s = cells g m /\
+  (aborted g = false -> started s = true -> done l = false -> fatal l = false -> ub s = false ->
+   cells (G t g) m = S (cells g m)).
+Proof.
+  intros Hb ps sched t l s m k g Ht Hc.
+  destruct (inc_run Hb sched _ (mx_init ps) (inc_init ps)) as [_ I].
+  destruct (I _ _ _ Ht) as [_ N]. destruct (N _ _ Hc) as [Hin Htmp].
+  split; auto. split; auto.
+  intros Hab Hst Hdo Hfa Hub. unfold gstep. fold g. rewrite Hab, Ht, Hst, Hdo, Hfa, Hub. simpl. rewrite Hc.
+  unfold advance, set_cell; simpl. unfold fupd. rewrite Nat.eqb_refl. rewrite Htmp. reflexivity.
+Qed.
+
 (* ------------------------------------------------------------------ join *)
 Definition jn_inv (g : gstate) : Prop :=
   forall u lu su, nth_error (thr g) u = Some (lu, su) -> joined su = true -> done lu = true.
@@ -385,7 +541,7 @@ Proof. intros. inversion H; subst; reflexivity. Qed.
 
 Lemma jn_step : forall t g, jn_inv g -> jn_inv (G t g).
 Proof.
-  intros t g I. destruct (gstep_shape t g) as [|l s Ht|l s g1 s1 Ht Hab Hst Hdo Hfa Hub P]; auto.
+  intros t g I. destruct (gstep_shape t g) as [|l s Ht|l s g1 s1 Ht Hab Hst Hdo Hfa Hub P PI]; auto.
   - intros u lu su H Hj. apply set_thr_lookup in H. destruct H as [[-> E]|[Hne H]].
     + inversion E; subst. simpl in Hj. eapply I; eauto.
     + eapply I; eauto.
